@@ -64,9 +64,9 @@ def buildManipulator (env : Env) (m? : Option ManipOpt) (src dst : ParamVar) (ar
     if pkg != "" && !m.exported then err s!"manipulator function {fname} is not exported" else
     if m.retError && !retError then
       err s!"cannot use manipulator function {fname} due to mismatch of returning error" else
-    if !env.assignable (env.derefPtr m.dstSide) (env.derefPtr dst.ty) then
+    if !env.assignable (env.derefPtr dst.ty) (env.derefPtr m.dstSide) then
       err s!"manipulator function {fname} 1st arg type mismatch" else
-    if !env.assignable (env.derefPtr m.srcSide) (env.derefPtr src.ty) then
+    if !env.assignable (env.derefPtr src.ty) (env.derefPtr m.srcSide) then
       err s!"manipulator function {fname} 2nd arg type mismatch" else
     let mk (has : Bool) : Outcome (Option Manipulator) :=
       .ok (some { pkg := pkg, name := m.name, isDstPtr := env.isPtr m.dstSide, isSrcPtr := env.isPtr m.srcSide,
@@ -74,7 +74,7 @@ def buildManipulator (env : Env) (m? : Option ManipOpt) (src dst : ParamVar) (ar
     if m.additionalArgs.isEmpty then mk false else
     if m.additionalArgs.length != args.length then
       err s!"manipulator function {fname} additional args count mismatch" else
-    match (m.additionalArgs.zip args).zipIdx.find? (fun ((h, a), _) => !env.assignable h a.ty) with
+    match (m.additionalArgs.zip args).zipIdx.find? (fun ((h, a), _) => !env.assignable a.ty h) with
     | some (_, i) => err s!"manipulator function {fname} {ordinalNumber (i + 3)} arg type mismatch"
     | none => mk true
 
